@@ -247,7 +247,7 @@ impl<'ast> Visit<'ast> for Scan {
             let mut names = vec![];
             collect_pat_idents(&l.pat, &mut names);
             for n in names {
-                s.lets.push(json!({"cfg": s.cur(), "name": n, "line": line(l), "fn": s.fn_stack.last()}));
+                s.lets.push(json!({"cfg": s.cur(), "name": n, "line": line(l), "pat_line": line(&l.pat), "fn": s.fn_stack.last()}));
             }
             visit::visit_local(s, l);
         });
